@@ -745,7 +745,7 @@ def meta(tier):
                     ann="generated architectures as programs: inputs 2..6 (Controller requires >= 2), outputs 1..6, 0..3 hidden layers of width 1..8 (one seeded architecture per (in, out, depth) combination, all width pairs 1..8 for 2-[a,b]-1, all small ones up to width 4; thorough: 6 per combination, all pairs for three more in/out shapes, odd-width triples)",
                     values="all real states, times and parameter vectors (z3 Real)"),
         outside=["IEEE rounding (fastmath=True makes the compiled result association dependent anyway)", "min_ann (iterative minimiser: not encoded)", "predefined controllers",
-                 "three_coupled_oscillators equations (no independent source offline; only in-range/read-only/all outputs written)"],
+                 "the three-coupled-oscillators system is compared with equation (3.1) of the paper cited in the module as I know it (frequencies 1, pi, pi^2) - not re-checkable offline"],
         assumptions=["reals stand in for floats: the claim is algebraic", "arctan and exp are uninterpreted functions, the same symbol in code and reference",
                      "documented parameter layout of networks: per neuron bias then one weight per input; per output multiplier, bias, weights"],
         stubs=["numba.njit removed for generated ANN text (captured from the real CodeGenerator before compilation)", "System -> object with state_dims/control_dims"])
